@@ -30,10 +30,17 @@ def demo_rc(root):
 sh(f"git -C /repo worktree remove --force {W}"); shutil.rmtree(LAB, ignore_errors=True); os.makedirs(LAB)
 r = sh(f"git -C /repo worktree add -q --detach {W} HEAD"); assert r.returncode == 0, r.stderr
 meta = dict(name=name, property=props[0], ran=[], mode="lab (isolated copy of /verif with TTCONV_REPO=scratch worktree)")
-confirmed = False
+confirmed = False; refreshed = None
 try:
     rc0, out0 = demo_rc(W)
     a = sh(f"git -C {W} apply {patch}")
+    if a.returncode != 0:
+        # the code moved on since the change was written (repairs): re-apply with fuzz and refresh the stored patch
+        a = sh(f"cd {W} && patch -p1 -F3 --no-backup-if-mismatch < {patch}")
+        if a.returncode == 0:
+            sh(f"find {W} -name '*.orig' -delete; find {W} -name '*.rej' -delete")
+            newp = LAB + "/refreshed.diff"; open(newp, "w").write(sh(f"git -C {W} diff").stdout)
+            meta["patch_refreshed"] = True; refreshed = newp
     rc1, out1 = demo_rc(W)
     b = sh(f"python3 /verif/tools/baseline.py {W}")
     meta.update(applies=(a.returncode == 0), demo_clean_rc=rc0, demo_clean_output=out0 if rc0 else "", demo_mutant_rc=rc1, demo_mutant_output=out1,
@@ -59,13 +66,16 @@ try:
                 d = f"/verif/seeded/{name}"; os.makedirs(d, exist_ok=True)
                 if os.path.exists(rp) and os.path.getsize(rp) < 400000: shutil.copy(rp, f"{d}/replay-{p}.json")
 finally:
+    refreshed_text = open(refreshed).read() if refreshed and os.path.exists(refreshed) else None
     if "--keep" not in flags:
         sh(f"git -C /repo worktree remove --force {W}"); shutil.rmtree(LAB, ignore_errors=True); sh("git -C /repo worktree prune")
 if confirmed and "--no-save" not in flags:
     d = f"/verif/seeded/{name}"; os.makedirs(d, exist_ok=True)
     def cp(a, b):
         if os.path.abspath(a) != os.path.abspath(b): shutil.copy(a, b)
-    cp(patch, d + "/patch.diff"); cp(demo, d + "/demo.py")
+    if refreshed_text: open(d + "/patch.diff", "w").write(refreshed_text)
+    else: cp(patch, d + "/patch.diff")
+    cp(demo, d + "/demo.py")
     md = patch[:-5] + ".md"
     if os.path.exists(md): cp(md, d + "/notes.md")
     meta["detected_by"] = [r["check"] for r in meta["ran"] if r["exit"] == 1 and r["violation_lines"]]
